@@ -393,7 +393,18 @@ func C13Apply(r *simkit.Run) {
 		for _, f := range files {
 			for k, st := range f.Stmts {
 				if st.Kind == KBad {
-					f.Stmts[k] = MkStmt(fmt.Sprintf("f%d", f.Idx), k, KInsert)
+					// The author either corrects the statement or takes it out of the file.
+					if len(f.Stmts) > 1 && t.Chance("fix-by-deleting-the-statement", 1, 3) {
+						f.Stmts = append(f.Stmts[:k:k], f.Stmts[k+1:]...)
+						r.Probe("fixed-by-deleting-the-failing-statement")
+						if k == len(f.Stmts) {
+							r.Probe("fixed-by-deleting-the-last-statement")
+						}
+						return true
+					}
+					// (The corrected statement keeps the id of the one it replaces: positions may have
+					// shifted by an earlier deletion.)
+					f.Stmts[k] = Stmt{ID: st.ID, Kind: KInsert, SQL: fmt.Sprintf("INSERT INTO journal (id) VALUES ('%s')", st.ID)}
 					return true
 				}
 			}
